@@ -423,8 +423,17 @@ impl<
                 // `America/Sao_Paulo`.) And thus, this would return `None`.
                 // So if it does, we pretend as if the POSIX time zone doesn't
                 // exist.
+                //
+                // The POSIX time zone only applies after the last transition
+                // in the TZif data. Its rule, applied to earlier times, can
+                // produce transitions that never happened (for example, a
+                // rule that came into effect at the last TZif transition).
+                // So only use its answer when it comes after that transition.
                 if let Some(trans) = posix_tz.previous_transition(ts) {
-                    return Some(trans);
+                    if trans.timestamp().as_second() > self.timestamps()[index]
+                    {
+                        return Some(trans);
+                    }
                 }
             }
             index
